@@ -781,8 +781,8 @@ def run_quantile(eng, p):
                           bounds_error=bounds_error, fill=fill_value)
             return SArr(uf("interpn", [gx, gy, values.flat(), px, py],
                            shape=(len(px),)), float)
-    kc = shadow(KC, np=npx, spint=spint,
-                get_bad_vals=lambda x, y: npx.isnan(x) | npx.isnan(y))
+    kmns = shadow(KM, np=npx)
+    kc = shadow(KC, np=npx, spint=spint, get_bad_vals=kmns["get_bad_vals"])
     gx = [eng.real("gx%d" % i) for i in range(2)]
     gy = [eng.real("gy%d" % i) for i in range(2)]
     eng.assume(z3.And(gx[0].e < gx[1].e, gy[0].e < gy[1].e))
@@ -791,6 +791,11 @@ def run_quantile(eng, p):
     n = p["n"]
     xp = SArr([eng.float("xp%d" % i) for i in range(n)], float)
     yp = SArr([eng.float("yp%d" % i) for i in range(n)], float)
+    for arr, nm in ((xp, "xp"), (yp, "yp")):
+        for i, v in enumerate(arr.elems):
+            # +-inf as a third kind of value (distinct from NaN)
+            v.inf = eng.bool("%s%d.inf" % (nm, i)).e
+            eng.assume(z3.Not(z3.And(v.inf, v.nan)))
     dens = Dens([[eng.real("d%d%d" % (i, j)) for j in range(2)]
                  for i in range(2)])
     with quiet():
@@ -804,9 +809,12 @@ def run_quantile(eng, p):
                   "interpolation grid stays finite and strictly monotonic "
                   "after normalisation", info={"axis": ax})
     valid = [i for i in range(n) if not eng.branch(
-        z3.Or(xp.elems[i].nan, yp.elems[i].nan))]
+        z3.Or(xp.elems[i].nan, yp.elems[i].nan, xp.elems[i].inf,
+              yp.elems[i].inf))]
     eng.prove(z3.BoolVal(len(record["px"]) == len(valid)),
-              "only valid events are interpolated")
+              "only valid (neither NaN nor inf) events are interpolated")
+    if len(record["px"]) != len(valid):
+        return "invalid events interpolated"
     # relative position of every valid event within the grid is preserved
     g = [lift(v) for v in record["gx"]]
     for k, i in enumerate(valid):
@@ -1048,6 +1056,23 @@ def replay(case, params, v):
             yp = np.array([gy.mean()])
             r, e = _run(lambda: get_quantile_levels(dens, gx, gy, xp, yp,
                                                     q=0.5))
+            if "valid" in what and e is None:
+                # the same events plus events at +-inf / NaN: the level must
+                # not change
+                xs_ = np.linspace(gx[0], gx[1], 7)[1:-1]
+                ys_ = np.linspace(gy[0], gy[1], 7)[1:-1]
+                r0 = get_quantile_levels(dens, gx, gy, xs_, ys_, q=0.5)
+                for bad in (np.inf, -np.inf, np.nan):
+                    xb = np.concatenate([xs_, [bad, bad, bad]])
+                    yb = np.concatenate([ys_, [ys_[0]] * 3])
+                    r1, e1 = _run(lambda: get_quantile_levels(
+                        dens, gx, gy, xb, yb, q=0.5))
+                    if e1 is not None or not np.isclose(r0, r1):
+                        return {"reproduced": True, "key":
+                                "get_quantile_levels|invalid-events-counted",
+                                "detail": "quantile level %r becomes %r when "
+                                "three events at %r are added" % (
+                                    r0, r1 if e1 is None else e1, bad)}
             ok = e is None and np.all(np.isfinite(r))
             if not ok:
                 tag = "grid-max-zero" if (gx.max() == 0 or gy.max() == 0) \
